@@ -7,6 +7,7 @@ mod fx;
 mod gauss;
 mod named;
 mod numvm;
+mod persist;
 mod spline;
 mod util;
 
@@ -27,6 +28,7 @@ fn main() {
         "curve" => curve::main(&args[1..]),
         "gauss" => gauss::main(&args[1..]),
         "spline" => spline::main(&args[1..]),
+        "persist" => persist::main(&args[1..]),
         "numvm" => numvm::main(&args[1..]),
         other => {
             eprintln!("unknown engine {}", other);
